@@ -65,7 +65,7 @@ def run(repo, chk):
     fs = repo.func("overlay.fits_selector")
     ff = facts_of(fs)
     pfn, selp = (a_.arg for a_ in fs.node.args.args[:2])
-    elt = f"check_element({selp}.element, {pfn}, {pfn}.__annotations__.get('return', None))"
+    elt = f"check_element({selp}.element, {pfn}, {pfn}.__annotations__.get('return'))"
     rets = [(t, set(c), n) for t, c, n in ff.items if isinstance(n, ast.Return)]
     falses = [c for t, c, n in rets if t == "return False"]
     ok = any(c == {f"not {elt}"} or (f"not {elt}" in c and len([x for x in c if x.startswith("not check_element(")]) == len(c)) for c in falses) \
